@@ -27,6 +27,10 @@ def frames(flow, rng):
     add("qinq_tagged", plain[:12] + b"\x88\xa8\x00\x0a\x81\x00\x00\x64" + plain[12:])
     for nm, fl in (("syn", SYN), ("synack", SYN | ACK), ("pure_ack", ACK), ("fin", FIN | ACK), ("rst", RST)):
         add("tcp_" + nm, tcp_frame(flow, "c" if nm != "synack" else "s", 1, 1, b"", flags=fl))      # zero-length control segments of the flow itself
+    # teardown flags that overtake data still in flight (a FIN of each side, a reset by the server): whatever the flags say, later segments of the
+    # connection are still the connection's data
+    add("tcp_fin_s", tcp_frame(flow, "s", 1, 1, b"", flags=FIN | ACK))
+    add("tcp_rst_s", tcp_frame(flow, "s", 1, 1, b"", flags=RST | ACK))
     add("llc_stp", b"\x01\x80\xc2\x00\x00\x00" + cm + struct.pack("!H", 38) + b"\x42\x42\x03" + bytes(35))
     add("gre", eth_frame(cm, sm, ip_packet(ci, si, 47, bytes(24))))
     add("sctp", eth_frame(cm, sm, ip_packet(ci, si, 132, bytes(32))))
